@@ -63,6 +63,15 @@ class AbstractVisibilities(Structure, ABC):
         if hasattr(obj, "ordered_1d"):
             self.ordered_1d = obj.ordered_1d
 
+    def with_new_array(self, array: np.ndarray) -> "AbstractVisibilities":
+        """
+        Copy this object but give it a new array, recomputing the `ordered_1d` representation so it describes the
+        new array (e.g. after arithmetic or slicing) and not the array it was copied from.
+        """
+        new_array = super().with_new_array(array=array)
+        new_array.ordered_1d = np.concatenate((np.real(array), np.imag(array)), axis=0)
+        return new_array
+
     @property
     def slim(self) -> "AbstractVisibilities":
         return self
@@ -274,3 +283,14 @@ class VisibilitiesNoiseMap(Visibilities):
 
         if hasattr(obj, "weight_list_ordered_1d"):
             self.weight_list_ordered_1d = obj.weight_list_ordered_1d
+
+    def with_new_array(self, array: np.ndarray) -> "VisibilitiesNoiseMap":
+        """
+        Copy this object but give it a new array, recomputing `weight_list_ordered_1d` so it describes the new array.
+        """
+        new_array = super().with_new_array(array=array)
+
+        new_array.weight_list_ordered_1d = np.concatenate(
+            (1.0 / np.real(array) ** 2.0, 1.0 / np.imag(array) ** 2.0), axis=0
+        )
+        return new_array
